@@ -164,6 +164,9 @@ def run_cycles(ctx):
         ('dangling_function', {'x': 'zork(2)+1'}), ('dependent_formula_error', {'x': '1/0'}),
         ('resolvable_plus_dangling', {'p': 'a+1', 'x': 'zz+1'}), ('resolvable_plus_cycle', {'p': 'a+1', 'x': 'y+1', 'y': 'x+1'}),
         ('chain_then_dangling', {'p': 'a+1', 'q': 'p*2', 'x': 'q+zz'}), ('two_resolvable_plus_self', {'p': 'a+1', 'q': 'a*2', 'x': 'x+p'}),
+        # missing names that contain braces / primes (numbered instances, tensor names)
+        ('dangling_numbered_instance', {'x': 'c_{2}+1'}), ('dangling_tensor_name', {'x': 'T_{ab}^{c}*2', 'p': 'a+1'}),
+        ('dangling_negative_index', {'x': "c_{-1}+w'"}), ('cycle_of_braced_names', {'c_{1}': 'c_{2}+1', 'c_{2}': 'c_{1}+1'}),
     ]
     for i in range(ctx.n(1600, 16000)):
         kind, dep = shapes[i % len(shapes)]
@@ -355,33 +358,44 @@ def run_graders(ctx):
             # sibling formulas in an ordered list: answer 2 is a function of input 1
             sub = FormulaGrader(variables=['x'], sample_from={'x': [21, 22]}, user_functions={'rec2': rec2}, samples=3)
             g = ListGrader(answers=['x+1', 'rec2(sibling_1^2, x)'], subgraders=sub, ordered=True)
-            first = rng.choice(['x+1', '1+x', 'x+2', '2*x'])
-            sq = {'x+1': 'x^2+2*x+1', '1+x': '(1+x)^2', 'x+2': '(x+2)*(x+2)', '2*x': '4*x^2'}[first]
-            second = rng.choice([sq, sq + '+1'])
-            out = lib.call(ctx, g, None, [first, second])
-            ctx.ev()
-            ctx.count('sibling_cases')
-            wit = {'inputs': [first, second], 'outcome': out.brief()}
-            want = [first in ('x+1', '1+x'), second == sq]
-            if not out.returned:
-                ctx.violation('C13:grader:sibling:raises', repr(out.brief()), wit)
-            else:
-                got = [e['ok'] is True for e in out.value['input_list']]
-                if got != want:
-                    ctx.violation('C13:grader:sibling:verdict', 'expected %r, got %r' % (want, got), wit)
-            fx = {'x+1': lambda x: x + 1, '1+x': lambda x: x + 1, 'x+2': lambda x: x + 2, '2*x': lambda x: 2 * x}[first]
-            for r in recorded:
-                ctx.count('recorded_function_calls')
-                if r[0] == 'rec2' and abs(r[1] - fx(r[2]) ** 2) > 1e-9 * abs(r[1]):
-                    ctx.violation('C13:grader:sibling:inconsistent_sample',
-                                  'rec2 saw sibling_1^2 = %r with x = %r; the sibling formula %r gives %r' % (r[1], r[2], first, fx(r[2]) ** 2), wit)
-            for smp_symbols, nsamp, cst, smp_list in TAP['records']:
-                if 'sibling_1' in smp_symbols:
-                    ctx.count('grader_sample_lists_tapped')
-                    for smp in smp_list:
-                        if 'sibling_1' not in smp or abs(smp['sibling_1'] - fx(smp['x'])) > 1e-9:
-                            ctx.violation('C13:grader:sibling:dependent_inconsistent', 'sample %r' % (smp,), wit)
-            ctx.nontrivial(['sib', first, second])
+            for rep_first in rng.sample(['x+1', '1+x', 'x+2', '2*x', '', 'x+'], rng.randint(1, 4)):
+                # the same list grader is asked again and again: nothing of an earlier submission (valid, empty or malformed) may stay
+                del recorded[:]
+                TAP['records'] = []
+                if rep_first in ('', 'x+'):
+                    bad = lib.call(ctx, g, None, [rep_first, 'x^2'])
+                    ctx.ev()
+                    ctx.count('sibling_bad_first_box')
+                    if bad.returned or not lib.err_family(bad.exc).startswith('StudentFacing'):
+                        ctx.violation('C13:grader:sibling:bad_first_box', repr(bad.brief()), {'inputs': [rep_first, 'x^2']})
+                    continue
+                first = rep_first
+                sq = {'x+1': 'x^2+2*x+1', '1+x': '(1+x)^2', 'x+2': '(x+2)*(x+2)', '2*x': '4*x^2'}[first]
+                second = rng.choice([sq, sq + '+1'])
+                out = lib.call(ctx, g, None, [first, second])
+                ctx.ev()
+                ctx.count('sibling_cases')
+                wit = {'inputs': [first, second], 'outcome': out.brief()}
+                want = [first in ('x+1', '1+x'), second == sq]
+                if not out.returned:
+                    ctx.violation('C13:grader:sibling:raises', repr(out.brief()), wit)
+                else:
+                    got = [e['ok'] is True for e in out.value['input_list']]
+                    if got != want:
+                        ctx.violation('C13:grader:sibling:verdict', 'expected %r, got %r' % (want, got), wit)
+                fx = {'x+1': lambda x: x + 1, '1+x': lambda x: x + 1, 'x+2': lambda x: x + 2, '2*x': lambda x: 2 * x}[first]
+                for r in recorded:
+                    ctx.count('recorded_function_calls')
+                    if r[0] == 'rec2' and abs(r[1] - fx(r[2]) ** 2) > 1e-9 * abs(r[1]):
+                        ctx.violation('C13:grader:sibling:inconsistent_sample',
+                                      'rec2 saw sibling_1^2 = %r with x = %r; the sibling formula %r gives %r' % (r[1], r[2], first, fx(r[2]) ** 2), wit)
+                for smp_symbols, nsamp, cst, smp_list in TAP['records']:
+                    if 'sibling_1' in smp_symbols:
+                        ctx.count('grader_sample_lists_tapped')
+                        for smp in smp_list:
+                            if 'sibling_1' not in smp or abs(smp['sibling_1'] - fx(smp['x'])) > 1e-9:
+                                ctx.violation('C13:grader:sibling:dependent_inconsistent', 'sample %r' % (smp,), wit)
+            ctx.nontrivial(['sib', i])
 
 
 def run(ctx):
